@@ -1,5 +1,5 @@
 CONSTANTS MaxK = 2
-          NP = 12
+          NP = 14
 INIT Init
 NEXT Next
 CHECK_DEADLOCK FALSE
